@@ -200,7 +200,7 @@ def fnum(x):
 # trace coherence (shared by C01-C05): score = -density of the visible choices
 # under the recorded arguments, retval = program's return value on them
 # ---------------------------------------------------------------------------
-def coherence(ctx, op, prog, vals, tr, d, assess_fn=None, args=None):
+def coherence(ctx, op, prog, vals, tr, d, assess_fn=None, args=None, allow_outside=False):
     """Returns (status, ref) with status in 'ok' | 'skip' | 'bad' (violation emitted)."""
     ch = R.to_numpy(tr.get_choices())
     ref = R.run(prog, vals, choices=ch)
@@ -212,6 +212,10 @@ def coherence(ctx, op, prog, vals, tr, d, assess_fn=None, args=None):
     score = tr.get_score()
     by = {pstr(p): v for p, v in ref.by_path().items()}
     if not math.isfinite(ref.total):
+        if allow_outside:
+            # kept old values can leave the support when arguments change: outside the claim
+            ctx.count("skipped_outside_support")
+            return "skip", ref
         ctx.violation(f"{op}|choices-outside-support", {**dd, "reference_by_address": by})
         return "bad", ref
     if np.shape(score) != () or not (abs(float(score) + ref.total) <= t):
